@@ -74,6 +74,7 @@ let table : (string * (sexp -> sexp)) list = [
   ("C09", run_C09);
   ("C15", run_C15);
   ("C16", run_C16);
+  ("C18", run_C18);
 ]
 
 let () =
